@@ -181,6 +181,12 @@ def apply_weather_xform(df: pd.DataFrame, xf) -> pd.DataFrame:
             df = pd.concat(parts, ignore_index=True)
         elif k == "trim":  # drop rows outside [first, last]
             df = df[(df.Date >= pd.Timestamp(op["first"])) & (df.Date <= pd.Timestamp(op["last"]))]
+        elif k == "intcols":  # whole-number measurements stored in an integer column (e.g. rain in whole mm)
+            for c in op["cols"]:
+                v = np.rint(df[c].to_numpy(dtype=float))
+                if c == "ReferenceET":
+                    v = np.maximum(v, 1.0)     # ET0 >= 0.1 is the documented domain: a whole-number ET0 is at least 1
+                df[c] = v.astype("int64")
         elif k == "float32":
             for c in ("MinTemp", "MaxTemp", "Precipitation", "ReferenceET"):
                 df[c] = df[c].astype("float32").astype("float64")
@@ -268,7 +274,27 @@ def build_fm(f):
 def build_gw(g):
     if g is None:
         return None
-    return GroundWater(water_table="Y", method=g.get("method", "Constant"), dates=list(g["dates"]), values=list(g["values"]))
+    return GroundWater(water_table="Y", method=g.get("method", "Constant"), dates=gw_dates(g), values=list(g["values"]))
+
+
+def gw_dates(g):
+    """the observation dates (stored as zero-padded YYYY/MM/DD in the case) in the notation the case asks for: the same
+    instants written differently -- their lexical order then differs from their chronological order"""
+    fmt = g.get("datefmt", "padded")
+    out = []
+    for d in g["dates"]:
+        t = pd.Timestamp(d)
+        if fmt == "unpadded":
+            out.append("%d/%d/%d" % (t.year, t.month, t.day))
+        elif fmt == "iso":
+            out.append(t.strftime("%Y-%m-%d"))
+        elif fmt == "mdy":
+            out.append(t.strftime("%m/%d/%Y"))
+        elif fmt == "ts":
+            out.append(t)
+        else:
+            out.append(str(d))
+    return out
 
 
 def build_co2(c):
